@@ -2,6 +2,9 @@ package main
 
 import (
 	"fmt"
+	"github.com/polydawn/rio/warehouse"
+	"github.com/polydawn/rio/warehouse/impl/kvfs"
+	"github.com/polydawn/rio/warehouse/impl/kvhttp"
 	"io"
 	"net"
 	"net/http"
@@ -10,6 +13,7 @@ import (
 	"os"
 	"path/filepath"
 	"strings"
+	"syscall"
 	"time"
 
 	api "github.com/polydawn/go-timeless-api"
@@ -132,6 +136,9 @@ func (e *pickEnv) mkIn(dir, id, scheme, cond string) string {
 			return "file://" + filepath.Join(dir, "nodir", "ware.tgz")
 		case "lacking":
 			os.MkdirAll(dir, 0755)
+			if e.n%4 == 3 {
+				syscall.Mkfifo(filepath.Join(dir, "ware.tgz"), 0644)
+			}
 			return "file://" + filepath.Join(dir, "ware.tgz")
 		case "holding":
 			os.MkdirAll(dir, 0755)
@@ -152,6 +159,16 @@ func (e *pickEnv) mkIn(dir, id, scheme, cond string) string {
 			return "ca+file://" + dir
 		case "lacking":
 			os.MkdirAll(dir, 0755)
+			switch e.n % 4 { // lacking in other ways than "no such file": a regular file where a chunk directory would be
+			case 1:
+				os.WriteFile(filepath.Join(dir, pickHash[0:3]), []byte("x"), 0644)
+			case 2:
+				os.MkdirAll(filepath.Join(dir, pickHash[0:3]), 0755)
+				os.WriteFile(filepath.Join(dir, pickHash[0:3], pickHash[3:6]), []byte("x"), 0644)
+			case 3: // … a fifo at the ware's own address (nobody will ever write to it)
+				os.MkdirAll(filepath.Join(dir, pickHash[0:3], pickHash[3:6]), 0755)
+				syscall.Mkfifo(filepath.Join(dir, pickHash[0:3], pickHash[3:6], pickHash), 0644)
+			}
 			return "ca+file://" + dir
 		case "holding":
 			p := filepath.Join(dir, pickHash[0:3], pickHash[3:6])
@@ -181,7 +198,8 @@ func (e *pickEnv) mkIn(dir, id, scheme, cond string) string {
 	case "other":
 		return "ftp://example.invalid/x"
 	case "unparsable":
-		return ":%zz"
+		// … and addresses that parse as URLs but name no host
+		return []string{":%zz", "http:///x/y", "http://", "ca+http:foo/bar", "ca+https:///wh"}[e.n%5]
 	}
 	return "bogus://"
 }
@@ -198,7 +216,10 @@ func pickExec(c *Ctx, env *pickEnv, op string) string {
 	}
 	wid := api.WareID{Type: "tar", Hash: pickHash}
 	var res string
-	func() {
+	resCh := make(chan string, 1)
+	go func() {
+		res := ""
+		defer func() { resCh <- res }()
 		defer func() {
 			if r := recover(); r != nil {
 				res = "panic"
@@ -223,6 +244,12 @@ func pickExec(c *Ctx, env *pickEnv, op string) string {
 		rd.Close()
 		res = "opened " + strings.TrimPrefix(string(b), "W")
 	}()
+	select {
+	case res = <-resCh:
+	case <-time.After(8 * time.Second):
+		res = "hang"
+		c.PropFail("pick-aborted", "the fetch did not return within 8 s (every warehouse of the list answers at once)", op)
+	}
 	// ---- property oracle (C16), from the conditions alone ----
 	if !mono && f[2] != "-" {
 		want := ""
@@ -356,6 +383,61 @@ func pickEngine(c *Ctx) {
 				c.PropFail("pick-wrong-warehouse", fmt.Sprintf("the ware id tar:%s was served by %s (another object of the server: the hash was joined into the URL path)", h, base), op)
 			} else if r == "panic" {
 				c.PropFail("pick-aborted", "a ware id with path separators made the fetch panic", op)
+			}
+		}
+	}
+	// a content-addressed warehouse that answers and lacks the ware in another way than ENOENT: a regular file sits where a
+	// chunk directory would be
+	for k, mk := range []func(dir string){
+		func(dir string) { os.WriteFile(filepath.Join(dir, pickHash[0:3]), []byte("x"), 0644) },
+		func(dir string) {
+			os.MkdirAll(filepath.Join(dir, pickHash[0:3]), 0755)
+			os.WriteFile(filepath.Join(dir, pickHash[0:3], pickHash[3:6]), []byte("x"), 0644)
+		},
+	} {
+		dir := filepath.Join(env.root, fmt.Sprintf("enotdir%d", k))
+		os.MkdirAll(dir, 0755)
+		mk(dir)
+		op := fmt.Sprintf("pick-chunk-is-file %d", k)
+		r := pickDirect(api.WareID{Type: "tar", Hash: pickHash}, []api.WarehouseLocation{api.WarehouseLocation("ca+file://" + dir)})
+		c.EmitR(op, "skip", "skip")
+		c.H("chunk-is-file:" + r)
+		if r != "err rio-ware-not-found" {
+			c.PropFail("pick-wrong-error", "a reachable ca+file warehouse that lacks the ware (a regular file sits where a chunk directory would be) answers "+r+" instead of ware-not-found", op)
+		}
+	}
+	// a warehouse controller is a value: asking it for the ware a second time gives the ware again (http, ca+http, ca+file)
+	{
+		caDir := filepath.Join(env.root, "reopen-ca")
+		os.MkdirAll(filepath.Join(caDir, pickHash[0:3], pickHash[3:6]), 0755)
+		os.WriteFile(filepath.Join(caDir, pickHash[0:3], pickHash[3:6], pickHash), []byte("W42"), 0644)
+		for _, addr := range []string{"ca+http" + strings.TrimPrefix(env.srv.URL, "http") + "/77/servererror", env.srv.URL + "/42/holding", "ca+file://" + caDir} {
+			op := "pick-reopen " + addr
+			c.EmitR(op, "skip", "skip")
+			var ctrl warehouse.BlobstoreController
+			var err error
+			if strings.Contains(addr, "http") {
+				ctrl, err = kvhttp.NewController(api.WarehouseLocation(addr))
+			} else {
+				ctrl, err = kvfs.NewController(api.WarehouseLocation(addr))
+			}
+			if err != nil {
+				continue
+			}
+			var got []string
+			for k := 0; k < 3; k++ {
+				rd, e := ctrl.OpenReader(api.WareID{Type: "tar", Hash: pickHash})
+				if e != nil {
+					got = append(got, "err "+catOf(e))
+					continue
+				}
+				b, _ := io.ReadAll(rd)
+				rd.Close()
+				got = append(got, "opened "+fmt.Sprint(len(b)))
+			}
+			c.H("reopen:" + got[0])
+			if got[1] != got[0] || got[2] != got[0] {
+				c.PropFail("pick-wrong-warehouse", fmt.Sprintf("one controller of %s asked three times for the same ware answers %v", addr, got), op)
 			}
 		}
 	}
